@@ -238,7 +238,16 @@ static const char **incfn_null(config_t *c, const char *dir, const char *path, c
 }
 
 /* ---- dump ---- */
-static int links_ok, queries_ok;
+static int links_ok, queries_ok, names_ok;
+/* is [name] (a pointer) one of the strings of the configuration's own vector of file names (config->filenames)?  Pointer
+   identity, no dereference: the names handed out by config_setting_source_file / config_error_file live exactly as long
+   as that vector */
+static int name_owned(const config_t *c, const char *name)
+{
+  if(!c->filenames) return 0;
+  for(const char **f = c->filenames; *f; f++) if(*f == name) return 1;
+  return 0;
+}
 
 /* ---- strings handed out by the library: each pointer returned by get_string / name / lookup_string is
    remembered with a copy of its bytes; after every later operation, as long as some live setting still
@@ -328,6 +337,7 @@ static void dump_node(const config_setting_t *s, const config_setting_t *parent,
                                           || t == CONFIG_TYPE_BOOL || t == CONFIG_TYPE_STRING)) queries_ok = 0;
   }
   /* pointer-level facts the functional model cannot express */
+  if(s->file && !name_owned(dump_owner ? dump_owner : &cfg, s->file)) names_ok = 0;
   if(s->parent != parent) links_ok = 0;
   if(s->config != (dump_owner ? dump_owner : &cfg)) links_ok = 0;
   if(config_setting_is_root(s) != (parent == NULL)) queries_ok = 0;
@@ -368,7 +378,10 @@ static void dump_node(const config_setting_t *s, const config_setting_t *parent,
 static void dump(void)
 {
   static int path[4096];
-  links_ok = queries_ok = 1;
+  links_ok = queries_ok = names_ok = 1;
+  /* the error file is owned by the configuration's vector of file names as long as that vector exists (config_clear
+     frees it and leaves the error fields alone: validity is promised only until the configuration is cleared) */
+  if(cfg.filenames && cfg.error_file && !name_owned(&cfg, cfg.error_file)) names_ok = 0;
   if(!cfg.root) { fputs("T destroyed\n", out); return; }
   dump_node(cfg.root, NULL, path, 0);
   /* ... and so does every public accessor of the configuration */
@@ -400,7 +413,8 @@ static void dump(void)
   fputc(' ', out);
   put_hs(cfg.error_file);
   fprintf(out, " %d\n", cfg.error_line);
-  fprintf(out, "S links=%s queries=%s strings=%s\n", links_ok ? "ok" : "BAD", queries_ok ? "ok" : "BAD", strings_ok ? "ok" : "BAD");
+  fprintf(out, "S links=%s queries=%s strings=%s names=%s\n", links_ok ? "ok" : "BAD", queries_ok ? "ok" : "BAD", strings_ok ? "ok" : "BAD",
+          names_ok ? "ok" : "BAD");
 }
 
 /* ---- file system helpers (paths are used exactly as the script gives them; cwd = workdir) ---- */
